@@ -558,10 +558,10 @@ class Discharger:
             return self.d_copy(key, a, s)
         if name == 'split_at':
             whole, idx = a.arg_val(bi, 0), a.arg_val(bi, 1)
-            if idx[0] == 'okval' and idx[1][0] == 'call' and idx[1][1] == 'core::option::Option::ok_or':
-                inner = idx[1][2][0]
-                if inner[0] == 'call' and inner[1] == 'core::num::<impl usize>::checked_sub' and inner[2][0] == ('len', whole):
-                    return 'D5', 'split_at(len.checked_sub(k)?) — index <= len on the Some path'
+            from .common import checked_sub_some
+            cs = checked_sub_some(a, facts, idx)
+            if cs is not None and cs[0] == ('len', whole):
+                return 'D5', 'split_at(len.checked_sub(k) on its Some path) — index <= len'
             if idx[0] == 'bin' and idx[1] == 'Sub' and idx[2] == ('len', whole):
                 return 'D5', 'split_at(len - k): index <= len (the subtraction itself is a separate site)'
             return None
@@ -724,9 +724,10 @@ class Discharger:
                     raws = [im['types']['OutputSize']['raw'] for im in facts.impls if im.get('trait') == 'Serializable' and im['self_ty'] == k[4][2]]
                     if raws and n_dst is not None and (n_dst == raws[0] or n_dst == typenum_usize(raws[0])):
                         return 'D5', 'second half of split_at(len - Nt) has Nt bytes = the tag buffer'
-            if idx[0] == 'okval' and idx[1][0] == 'call' and idx[1][1] == 'core::option::Option::ok_or':
-                inner = idx[1][2][0]
-                k = inner[2][1] if inner[0] == 'call' and len(inner[2]) == 2 else None
+            from .common import checked_sub_some
+            cs = checked_sub_some(a, facts, idx)
+            if cs is not None and cs[0] == ('len', src[2][2][0]):
+                k = cs[1]
                 if k is not None and k[0] == 'call' and k[1] == 'Serializable::size' and k[4]:
                     raws = [im['types']['OutputSize']['raw'] for im in facts.impls if im.get('trait') == 'Serializable' and im['self_ty'] == k[4][2]]
                     if raws and n_dst is not None and (n_dst == raws[0] or n_dst == typenum_usize(raws[0])):
